@@ -501,3 +501,37 @@ def m_len_struct(x):
 m_len_struct.__symx_model__ = True
 V.BUILTIN_MODELS["len"] = m_len_struct
 V.m_len = m_len_struct
+
+
+def _concrete_hook(v):
+    if isinstance(v, (SymEnum, SymStruct)):
+        return False
+    return NOT_HANDLED
+
+
+V.CONCRETE_HOOKS.append(_concrete_hook)
+
+
+def _str_enum(x):
+    if isinstance(x, SymEnum):
+        r = x.resolve()
+        if r is not x:
+            return str(r)
+        from .models_str import int_to_str
+
+        return SymStr([ord(c) for c in x.etype.__name__ + "."] + seq_cells(int_to_str(x.v), SymStr))
+    return NOT_HANDLED
+
+
+from . import models_str as _ms  # noqa: E402
+
+_ms.STR_HOOKS.append(_str_enum)
+
+
+def _deep_eq_enum(a, b):
+    if isinstance(a, SymEnum) or isinstance(b, SymEnum):
+        return enum_eq(a, b)
+    return NOT_HANDLED
+
+
+V.DEEP_EQ_HOOKS.append(_deep_eq_enum)
